@@ -40,7 +40,7 @@ def _atom_key(a):
 
 
 def r1(ctx):
-    b = ctx.fbody(name="update", self_adt=DG, trait="")
+    b = ctx.fibody(name="update", self_adt=DG, trait="")
     st = {render(s[2]): [] for s in b.stores()}
     for bi, si, path, value, s in b.stores():
         st[render(path)].append((render(value), _atoms(b.guard(bi)), bi, si, s["sp"]))
@@ -94,7 +94,7 @@ def r1(ctx):
 
 
 def r3(ctx):
-    g = ctx.fbody(name="generate", self_adt=DG, trait="")
+    g = ctx.fibody(name="generate", self_adt=DG, trait="")
     r = render(g.return_term())
     somes = [t for t in mir.subterms(g.return_term()) if t[0] == "agg" and t[1].endswith("drawdown::Drawdown::Drawdown")]
     ok = len(somes) == 1
@@ -102,9 +102,14 @@ def r3(ctx):
     ctx.check("DrawdownGenerator::generate", f.get("value") == "self.drawdown_max" and f.get("time_end") == "self.time_now" and
               "self.time_peak" in f.get("time_start", ""),
               "the record is (deepest decline, start = peak time, end = current time)", got=f, key="fields")
-    ctx.check("DrawdownGenerator::generate", "bool::then_some(PartialEq::ne(self.drawdown_max, rust_decimal::Decimal::ZERO)" in r or
-              "then_some(" in r and "ne(self.drawdown_max" in r, "emitted only if a decline actually occurred", got=r[:200], key="nonzero")
-    b = ctx.fbody(name="update", self_adt=DG, trait="")
+    tab = common.case_table(g)
+    some = [k for k, v in tab.items() if any(x.startswith("Option::Some{0: Drawdown::Drawdown{") for x in v)]
+    none = [k for k, v in tab.items() if v == ["Option::None{}"]]
+    ctx.check("DrawdownGenerator::generate", some == ["(Try::branch(self.time_peak) is Continue && ne(rust_decimal::Decimal::ZERO, self.drawdown_max))"] and
+              none == ["(Try::branch(self.time_peak) is Continue && eq(rust_decimal::Decimal::ZERO, self.drawdown_max))"] and len(tab) == 3,
+              "a record is emitted exactly when a peak exists and a decline actually occurred (drawdown_max != 0)",
+              got={k: [x[:80] for x in v] for k, v in tab.items()}, key="nonzero")
+    b = ctx.fibody(name="update", self_adt=DG, trait="")
     cur = [tm for bi, t, tm in b.real_calls() if tm[1].endswith("checked_div")]
     ok = len(cur) == 1
     if ok:
@@ -121,7 +126,7 @@ def r3(ctx):
 
 
 def r4(ctx):
-    b = ctx.fbody(name="update", self_adt=MAXG, trait="")
+    b = ctx.fibody(name="update", self_adt=MAXG, trait="")
     st = [(render(s[2]), s[3], b.guard(s[0])) for s in b.stores()]
     ok = len(st) == 1 and st[0][0] == "self.max"
     ctx.check("MaxDrawdownGenerator::update", ok, "one store of the maximum", got=[(x[0], render(x[1])) for x in st], key="store")
@@ -139,7 +144,7 @@ def r4(ctx):
             str([["Option::take(self.max) is None"]]): "MaxDrawdown::MaxDrawdown{0: next_drawdown}",
         }
         ctx.check("MaxDrawdownGenerator::update", tab == want, "the maximum is replaced exactly when |next| > |current| (or none is held)", got=tab, want=want, key="table")
-    m = ctx.fbody(name="update", self_adt=MEANG, trait="")
+    m = ctx.fibody(name="update", self_adt=MEANG, trait="")
     calls = m.real_calls()
     inc = [(bi, si) for bi, si, path, value, s in m.stores() if render(path) == "self.count" and
            render(value) == "AddWithOverflow(self.count, 1).0"]
@@ -187,7 +192,7 @@ def r5(ctx):
     res = {}
     for adt, upd, prefix in ((TS, "update_from_position", "self.pnl_"), (TA, "update_from_balance", "self.")):
         for fn, src in ((upd, "DrawdownGenerator::update"), ("generate", "DrawdownGenerator::generate")):
-            b = ctx.fbody(name=fn, self_adt=adt, trait="")
+            b = ctx.fibody(name=fn, self_adt=adt, trait="")
             f = _feeds(ctx, b, lambda tm, src=src: mir.short(tm[1]) == src)
             name = "%s::%s" % (mir.short(adt).split("::")[-1], fn)
             want = {("MeanDrawdownGenerator::update", prefix + "drawdown_mean"), ("MaxDrawdownGenerator::update", prefix + "drawdown_max")}
@@ -196,11 +201,11 @@ def r5(ctx):
             ctx.check(name, ok, "every drawdown produced here is given to both the mean and the max generator of the same tear sheet",
                       got={k: sorted(v) for k, v in f.items()}, want=sorted(want), key="feeds-both")
     # what feeds the drawdown generator
-    b = ctx.fbody(name="update_from_position", self_adt=TS, trait="")
+    b = ctx.fibody(name="update_from_position", self_adt=TS, trait="")
     u = [tm for bi, t, tm in b.real_calls() if mir.short(tm[1]) == "DrawdownGenerator::update"]
     ctx.check("TearSheetGenerator::update_from_position", len(u) == 1 and render(u[0][2][1]) == "Timed::Timed{value: self.pnl_returns.pnl_raw, time: self.time_engine_now}"
               and render(u[0][2][0]) == "self.pnl_drawdown", "the PnL curve point is (cumulative realised PnL, exit time)", got=[render(x) for x in u], key="curve")
-    for nm, bb in (("TearSheetGenerator::update_from_position", b), ("TearSheetAssetGenerator::update_from_balance", ctx.fbody(name="update_from_balance", self_adt=TA, trait=""))):
+    for nm, bb in (("TearSheetGenerator::update_from_position", b), ("TearSheetAssetGenerator::update_from_balance", ctx.fibody(name="update_from_balance", self_adt=TA, trait=""))):
         us = [bi for bi, t, tm in bb.real_calls() if mir.short(tm[1]) == "DrawdownGenerator::update"]
         ctx.check(nm, len(us) == 1 and bb.guard(us[0]) == frozenset([frozenset()]),
                   "every point of the curve is fed to the drawdown generator (unconditionally - a skipped point can hide a trough or a peak)",
@@ -210,7 +215,7 @@ def r5(ctx):
     du = [bi for bi, t, tm in b.real_calls() if mir.short(tm[1]) == "DrawdownGenerator::update"]
     ctx.check("TearSheetGenerator::update_from_position", len(pu) == 1 and len(du) == 1 and b.dominates(pu[0], du[0]) and pu[0] != du[0],
               "the PnL is accumulated before the curve point is taken", key="order")
-    a = ctx.fbody(name="update_from_balance", self_adt=TA, trait="")
+    a = ctx.fibody(name="update_from_balance", self_adt=TA, trait="")
     u = [tm for bi, t, tm in a.real_calls() if mir.short(tm[1]) == "DrawdownGenerator::update"]
     ctx.check("TearSheetAssetGenerator::update_from_balance", len(u) == 1 and render(u[0][2][1]) == "Timed::Timed{value: balance.0.balance.total, time: balance.0.time_exchange}"
               and render(u[0][2][0]) == "self.drawdown", "the equity curve point is (total balance, exchange time)", got=[render(x) for x in u], key="curve")
